@@ -80,9 +80,8 @@ def r1(ctx, R):
             ok = False
             if loop is not None and isinstance(loop.target, ast.Name):
                 v = loop.target.id
-                if call_recv(c) == "%s[]" % v and c.args and norm(c.args[0]) == "%s[KEY]" % v \
-                        and isinstance(loop.iter, ast.Name):
-                    srcs = assigned_value(f, loop.iter.id)
+                if call_recv(c) == "%s[]" % v and c.args and norm(c.args[0]) == "%s[KEY]" % v:
+                    srcs = assigned_value(f, loop.iter.id) if isinstance(loop.iter, ast.Name) else [loop.iter]
                     ok = bool(srcs) and all(
                         isinstance(s, ast.Call) and call_name(s) in ("remove_with_descs", "clear_obj")
                         and (call_recv(s) or "").endswith("tracegraph") for s in srcs)
@@ -446,5 +445,5 @@ def r4(ctx, R):
             R.bad(ca, c1[0], "referrers are looked up for something other than the changed reference")
         lp = enclosing_for(ca, c2[0])
         v1 = enclosing_target(ca, c1[0])
-        if lp is None or not isinstance(lp.iter, ast.Name) or lp.iter.id != v1 or [norm(a) for a in c2[0].args] != [norm(lp.target)]:
+        if lp is None or q.origin(ca, lp.iter) is not c1[0] or [norm(a) for a in c2[0].args] != [norm(lp.target)]:
             R.bad(ca, c2[0], "not every referrer node is cleared")
